@@ -8,6 +8,7 @@ import traceback
 def main(argv):
     ap = argparse.ArgumentParser(prog="check")
     ap.add_argument("check", nargs="?")
+    ap.add_argument("rest", nargs="*")
     ap.add_argument("--tier", default=os.environ.get("VERIF_TIER", "quick"), choices=["quick", "thorough"])
     ap.add_argument("--runs", type=int)
     ap.add_argument("--workers", type=int)
@@ -33,7 +34,11 @@ def main(argv):
         if args.check == "selftest-determinism":
             from . import selftest
 
-            return selftest.determinism(args.n, seed)
+            return selftest.determinism(args.n, seed, ids=args.rest or None)
+        if args.check == "selftest-child":
+            from . import selftest
+
+            return selftest.child(args.rest)
         from . import runner
 
         if args.one is not None:
